@@ -35,7 +35,7 @@ P = ScenarioProperty(
     lambda sc: [C18Checker(sc)],
     _judge,
     quick=3200,
-    thorough=60000, machine={"profile": {"hibernation": 0.7}},
+    thorough=60000, machine={"profile": {"hibernation": 0.8}, "budget": (800, 16000)},
 )
 run_shard = P.run_shard
 replay = P.replay
